@@ -148,6 +148,7 @@ def run(ck):
     refused_inside_session_layer(ck, 20 if q else 400)
     refused_rescale_layer(ck, 12 if q else 240)
     trailing_bytes_layer(ck, 12 if q else 240)
+    large_evlr_layer(ck, 6 if q else 60)
     encoding_errors_layer(ck, 8 if q else 100)
     compressed_layer(ck, 25 if q else 500)
     out = ck.driver(lines)
@@ -373,6 +374,40 @@ def trailing_bytes_layer(ck, n_cases):
             ck.fail(f"appending {len(extra) // size} points to a {n0}-point file with {junk_len} bytes after its last record: the file reads {len(back.points)} points that are "
                     f"{'' if back.points.array.tobytes() == want else 'not '}the original points followed by the appended ones (the appended records start at byte "
                     f"{where}, the last counted record ends at byte {off + n0 * size})", inp)
+
+
+def large_evlr_layer(ck, n_cases):
+    """originals whose EVLRs are larger than a VLR may be (payloads of 65536 bytes and more): the append session relocates them after the new
+    points like any other"""
+    import laspy
+    pairs4 = [pr for pr in fio.PAIRS if pr[0] == 4]
+    for ci in range(n_cases):
+        minor, fmt = pairs4[ci % len(pairs4)]
+        n0 = [0, 3][ci % 2]
+        big = [65536, 70001, 65535][ci % 3]
+        evlrs = [("verif_big", 77, "larger than a VLR may be", bytes((i * 7 + ci) & 0xFF for i in range(big)))]
+        if ci % 2:
+            evlrs.append(("verif", 78, "after it", b"tail"))
+        las = fio.make_las(ck.rng, minor, fmt, n0, evlrs=evlrs)
+        size = las.header.point_format.size
+        extra = fio.raw_records(ck.rng, size, ck.rng.choice([1, 4]))
+        inp = {"kind": "large_evlr", "minor": minor, "fmt": fmt, "n0": n0, "appended": len(extra) // size, "evlr_payloads": [len(e[3]) for e in evlrs]}
+        ck.case(("large_evlr", minor, fmt, n0, big, las.points.array.tobytes(), extra), nontrivial=True)
+        ck.count("original_with_evlr>=65535")
+        try:
+            b0 = io.BytesIO()
+            las.write(b0)
+            after = append_session(b0.getvalue(), [rec_of(las, extra)])
+        except Exception as e:
+            ck.fail(f"writing / appending to a file with an EVLR of {big} bytes raised {type(e).__name__}: {e}", inp)
+            continue
+        whole = fio.make_las(ck.rng, minor, fmt, 0, raw=las.points.array.tobytes() + extra, evlrs=evlrs)
+        ref = io.BytesIO()
+        whole.write(ref)
+        if after != ref.getvalue():
+            a, b = after, ref.getvalue()
+            k0 = next((i for i in range(min(len(a), len(b))) if a[i] != b[i]), min(len(a), len(b)))
+            ck.fail(f"appended file (EVLR of {big} bytes) differs from the one-shot file of the concatenation (first difference at byte {k0}; sizes {len(a)}/{len(b)})", inp)
 
 
 def rescale_layer(ck, n_cases):
